@@ -96,6 +96,39 @@ pub fn model_clear(local: i128, k: usize) -> i128 {
     }
 }
 
+/// The getter that belongs to setter `f` (the statement: "returns a value whose getter for that field reads v").
+fn dt_getter(dt: &DateTime, f: usize) -> i64 {
+    match f {
+        0 => dt.year() as i64,
+        1 => dt.month() as i64,
+        2 => dt.day() as i64,
+        3 => dt.day_of_year() as i64,
+        4 => dt.hour() as i64,
+        5 => dt.minute() as i64,
+        6 => dt.second() as i64,
+        7 => dt.milli() as i64,
+        8 => dt.micro() as i64,
+        _ => dt.nano() as i64,
+    }
+}
+
+/// After clear_until_<unit k>: which getters must read their minimum (absolute, as the statement says).
+fn dt_cleared_fields_wrong(dt: &DateTime, k: usize) -> Option<String> {
+    let g = (dt.year(), dt.month(), dt.day(), dt.hour(), dt.minute(), dt.second(), dt.nano());
+    let ok = match k {
+        0 => g == (1, 1, 1, 0, 0, 0, 0),
+        1 => (g.1, g.2, g.3, g.4, g.5, g.6) == (1, 1, 0, 0, 0, 0),
+        2 => (g.2, g.3, g.4, g.5, g.6) == (1, 0, 0, 0, 0),
+        3 => (g.3, g.4, g.5, g.6) == (0, 0, 0, 0),
+        4 => (g.4, g.5, g.6) == (0, 0, 0),
+        5 => (g.5, g.6) == (0, 0),
+        6 => g.6 == 0 && dt.milli() == 0 && dt.micro() == 0,
+        7 => g.6 % 1_000_000 == 0 && dt.micro() % 1_000 == 0,
+        _ => g.6 % 1_000 == 0,
+    };
+    if ok { None } else { Some(format!("(year,month,day,hour,minute,second,nano)={:?} milli={} micro={}", g, dt.milli(), dt.micro())) }
+}
+
 fn offset_class(i: i128, off: i32) -> &'static str {
     if off == 0 {
         "offset0"
@@ -137,7 +170,14 @@ fn judge_dt_set(rec: &mut Rec, i: i128, off: i32, f: usize, v: i64) {
     let wit = |obs: Value| json!({"start_utc": show(i), "offset": off, "start_local": show(local), "call": format!("{}({})", name, v), "model_local_result": exp_local.map(show).map_err(|_| "must be refused"), "observed": obs});
     match (r, exp) {
         (Err(p), _) => rec.violation(format!("C09|datetime|{}|panic|{},{}|{}", name, p.class, p.site(), vclass), || wit(p.to_json())),
-        (Ok(Ok(res)), Ok((_, eu))) => match diff_with_expected(&res, eu, off) {
+        (Ok(Ok(res)), Ok((_, eu))) => {
+          // absolute, whatever the other read-outs do: the getter of the field that was set reads the value set
+          match trap(|| dt_getter(&res, f)) {
+              Ok(g) if g == v => {}
+              Ok(g) => rec.violation(format!("C09|datetime|{}|getter-does-not-read-the-value-set|{}", name, oc), || wit(json!({"getter_reads": g, "value_set": v}))),
+              Err(p) => rec.violation(format!("C09|datetime|{}|getter-panics-on-result|{},{}", name, p.class, p.site()), || wit(p.to_json())),
+          }
+          match diff_with_expected(&res, eu, off) {
             Ok(Diff::Skip) => rec.bin(SKIP_EXPECTED),
             Ok(Diff::Same) => {}
             Ok(Diff::Differs(g, e)) => {
@@ -149,7 +189,8 @@ fn judge_dt_set(rec: &mut Rec, i: i128, off: i32, f: usize, v: i64) {
                 rec.violation(format!("C09|datetime|{}|{}|{}", name, kind, oc), || wit(json!({"result_reads": g.to_json(), "independently_built_expected_reads": e.to_json()})));
             }
             Err(p) => rec.violation(format!("C09|datetime|{}|result-unreadable|{},{}", name, p.class, p.site()), || wit(p.to_json())),
-        },
+          }
+        }
         (Ok(Ok(res)), Err(())) => rec.violation(format!("C09|datetime|{}|accepted-invalid|{}", name, oc), || wit(json!({"result_utc": trap(|| show(read(&res))).unwrap_or_default()}))),
         (Ok(Err(e)), Ok(_)) => rec.violation(format!("C09|datetime|{}|refused-valid|{}", name, oc), || wit(json!({"error": e.to_string()}))),
         (Ok(Err(e)), Err(())) => {
@@ -180,6 +221,12 @@ fn judge_dt_clear(rec: &mut Rec, i: i128, off: i32, k: usize) {
     rec.bin("clear/judged");
     let wit = |obs: Value| json!({"start_utc": show(i), "offset": off, "start_local": show(local), "call": name, "model_local_result": show(el), "observed": obs});
     judge_dt(rec, &format!("C09|datetime|{}", name), (i, off), Expect::Value(eu, off), |dt| Ran::Returned(apply_dt_clear(dt, k)), wit);
+    // absolute: the cleared unit and everything finer read their minimum through the getters
+    if let Some((dt, _)) = sane_value(i, off) {
+        if let Ok(Some(bad)) = trap(|| dt_cleared_fields_wrong(&apply_dt_clear(&dt, k), k)) {
+            rec.violation(format!("C09|datetime|{}|cleared-fields-do-not-read-their-minimum|{}", name, oc), || wit(json!(bad)));
+        }
+    }
     if rec.want_sample() {
         rec.sample(|| wit(json!("(see verdict)")));
     }
@@ -233,12 +280,28 @@ fn judge_date_op(rec: &mut Rec, day: i64, f: usize, v: i64) {
     };
     match (r, exp_day) {
         (Err(p), _) => rec.violation(format!("C09|date|{}|panic|{},{}", name, p.class, p.site()), || wit(p.to_json())),
-        (Ok(Ok(res)), Ok(e)) => match diff_date(&res, e) {
+        (Ok(Ok(res)), Ok(e)) => {
+          let abs = trap(|| match f {
+              0 => (res.year() as i64 == v, format!("year()={}", res.year())),
+              1 => (res.month() as i64 == v, format!("month()={}", res.month())),
+              2 => (res.day() as i64 == v, format!("day()={}", res.day())),
+              3 => (res.day_of_year() as i64 == v, format!("day_of_year()={}", res.day_of_year())),
+              4 => (res.as_ymd() == (1, 1, 1), format!("as_ymd()={:?}", res.as_ymd())),
+              5 => ((res.month(), res.day()) == (1, 1), format!("month/day={:?}", (res.month(), res.day()))),
+              _ => (res.day() == 1, format!("day()={}", res.day())),
+          });
+          match abs {
+              Ok((true, _)) => {}
+              Ok((false, what)) => rec.violation(format!("C09|date|{}|getter-does-not-read-the-value-set-or-minimum", name), || wit(json!(what))),
+              Err(p) => rec.violation(format!("C09|date|{}|getter-panics-on-result|{},{}", name, p.class, p.site()), || wit(p.to_json())),
+          }
+          match diff_date(&res, e) {
             Ok(DateDiff::Skip) => rec.bin(SKIP_EXPECTED),
             Ok(DateDiff::Same) => {}
             Ok(DateDiff::Differs(got, exp)) => rec.violation(format!("C09|date|{}|wrong-value|era={}", name, if day < 0 { "BC" } else { "AD" }), || wit(json!({"result_reads": got, "independently_built_expected_reads": exp}))),
             Err(p) => rec.violation(format!("C09|date|{}|result-unreadable|{},{}", name, p.class, p.site()), || wit(p.to_json())),
-        },
+          }
+        }
         (Ok(Ok(res)), Err(())) => rec.violation(format!("C09|date|{}|accepted-invalid", name), || wit(json!({"result_reads": trap(|| date_reads(&res)).unwrap_or_default()}))),
         (Ok(Err(e)), Ok(_)) => rec.violation(format!("C09|date|{}|refused-valid", name), || wit(json!({"error": e.to_string()}))),
         (Ok(Err(e)), Err(())) => {
@@ -266,7 +329,29 @@ fn judge_time_op(rec: &mut Rec, n: u64, off: i32, f: usize, v: u32) {
     let wit = |obs: Value| json!({"time_as_nanos": n, "offset": off, "local_nanos": m.local(), "call": if f < 6 { format!("Time::{}({})", name, v) } else { format!("Time::{}()", name) }, "model_as_nanos": exp, "observed": obs});
     match (r, exp) {
         (Err(p), _) => rec.violation(format!("C09|time|{}|panic|{},{}", name, p.class, p.site()), || wit(p.to_json())),
-        (Ok(Ok(res)), Some(e)) => match diff_time(&res, e, off) {
+        (Ok(Ok(res)), Some(e)) => {
+          let abs = trap(|| {
+              let g = [res.hour(), res.minute(), res.second(), res.milli(), res.micro(), res.nano()];
+              let ok = if f < 6 {
+                  g[f] == v
+              } else {
+                  match f - 6 {
+                      0 => (g[0], g[1], g[2], g[5]) == (0, 0, 0, 0),
+                      1 => (g[1], g[2], g[5]) == (0, 0, 0),
+                      2 => (g[2], g[5]) == (0, 0),
+                      3 => g[5] == 0 && g[3] == 0 && g[4] == 0,
+                      4 => g[5] % 1_000_000 == 0 && g[4] % 1_000 == 0,
+                      _ => g[5] % 1_000 == 0,
+                  }
+              };
+              (ok, format!("(hour,minute,second,milli,micro,nano)={:?}", g))
+          });
+          match abs {
+              Ok((true, _)) => {}
+              Ok((false, what)) => rec.violation(format!("C09|time|{}|getter-does-not-read-the-value-set-or-minimum", name), || wit(json!(what))),
+              Err(p) => rec.violation(format!("C09|time|{}|getter-panics-on-result|{},{}", name, p.class, p.site()), || wit(p.to_json())),
+          }
+          match diff_time(&res, e, off) {
             Ok(TDiff::Skip) => rec.bin(SKIP_EXPECTED),
             Ok(TDiff::Same) => {}
             Ok(TDiff::Differs(g, x)) => {
@@ -274,7 +359,8 @@ fn judge_time_op(rec: &mut Rec, n: u64, off: i32, f: usize, v: u32) {
                 rec.violation(format!("C09|time|{}|{}", name, kind), || wit(json!({"result_reads": format!("{:?}", g), "independently_built_expected_reads": format!("{:?}", x)})));
             }
             Err(p) => rec.violation(format!("C09|time|{}|result-unreadable|{},{}", name, p.class, p.site()), || wit(p.to_json())),
-        },
+          }
+        }
         (Ok(Ok(res)), None) => rec.violation(format!("C09|time|{}|accepted-invalid", name), || wit(json!({"as_nanos": trap(|| res.as_nanos()).ok()}))),
         (Ok(Err(e)), Some(_)) => rec.violation(format!("C09|time|{}|refused-valid", name), || wit(json!({"error": e.to_string()}))),
         (Ok(Err(e)), None) => {
